@@ -17,9 +17,8 @@ Property theorems only (helper lemmas: `NixModel/Lemmas/C10Values.lean`, `C10Sta
 * `Input.assigned?` / `Input.appended?` — the list of values an input *denotes*, defined on the
   specification side without any dtype (`Lemmas/C10Values.lean`).
 * `step st op = (st', out)` — one call; `out` is the result or the exception class.
-* `Input.WF` — the inputs the model speaks about: arrays whose data fit their shape and dtype, text
-  not ending in NUL characters (numpy's `np.array(vals, dtype=str)` silently drops trailing NULs;
-  recorded as known finding `C10-text-trailing-nul-dropped`, outside the model).
+* `Input.WF` — the inputs the model speaks about: arrays whose data fit their shape and dtype; every
+  scalar and every list (also text containing NUL, integers of any size) is well-formed.
 -/
 namespace Nix.C10
 open Nix.PropVals
@@ -172,12 +171,14 @@ theorem C10_reads_change_nothing (st : State) (k : PKey) (k' : Key) :
 
 /-! ## refusals -/
 
-/-- **TypeError ⇒ nothing changed.**  Whatever operation raises TypeError — in fact any exception
-other than ValueError (which h5py raises for a text value with an embedded NUL *after* the dataset
-was resized, see `C10_any_refusal_unchanged_counterexample`) — leaves the section exactly as it
-was: every property with its values, dtype and attributes, every child section, and nothing new. -/
+/-- **A refused call changes nothing.**  Whatever operation raises — TypeError for values of another
+type or of mixed types, ValueError for a value of no supported type or a text containing NUL,
+OverflowError for an integer outside int64, KeyError / IndexError / DuplicateName of the lookups —
+leaves the section exactly as it was: every property with its values, dtype and attributes, every
+child section, and nothing new.  (Before the repairs 38c9f56 / 578a510 of /repo this failed for text
+containing NUL, which h5py refused only after the dataset had been resized.) -/
 theorem C10_refused_unchanged {st : State} (hr : Reachable st) {op : Op} (hwf : op.WF = true) {e : Err}
-    (herr : (step st op).2 = .error e) (h1 : e ≠ .valueError) : (step st op).1 = st := by
+    (herr : (step st op).2 = .error e) : (step st op).1 = st := by
   have liftErr : ∀ r : State × Except Err Unit, (lift r).2 = .error e → r.2 = .error e := by
     intro r h
     simp only [lift] at h
@@ -186,8 +187,8 @@ theorem C10_refused_unchanged {st : State} (hr : Reachable st) {op : Op} (hwf : 
     | error e' => simp [hr2] at h; rw [h]
   cases op with
   | create name inp => exact createProperty_refused (liftErr _ herr)
-  | set k inp => exact onProp_refused hr.inv herr fun p hp => setValues_refused hp h1
-  | extend k inp => exact onProp_refused hr.inv herr fun p hp => extendValues_refused hwf hp h1
+  | set k inp => exact onProp_refused hr.inv herr fun p hp => setValues_refused hp
+  | extend k inp => exact onProp_refused hr.inv herr fun p hp => extendValues_refused hwf hp
   | clear k => exact onProp_refused hr.inv herr fun p hp => by simp at hp
   | setAttr k a v => exact onProp_refused hr.inv herr fun p hp => setAttr_refused hp
   | setOdml k o => exact onProp_refused hr.inv herr fun p hp => setOdml_refused hp
@@ -218,24 +219,15 @@ theorem C10_refused_unchanged {st : State} (hr : Reachable st) {op : Op} (hwf : 
         | error e' => rfl
         | ok p =>
           simp only [hf] at herr' ⊢
-          rw [setValues_refused herr' h1]
+          rw [setValues_refused herr']
           exact putProp_self hr.inv.ids (findProp_mem hf)
 
-/-- The stronger statement "whatever a call raises, the section is as it was" -/
-def C10_any_refusal_unchanged : Prop :=
-  ∀ st : State, Reachable st → ∀ op : Op, op.WF = true → ∀ e : Err,
-    (step st op).2 = .error e → (step st op).1 = st
-
-/-- … is false of the code (open known finding `C10-nul-text-after-resize`): assigning a text with
-an embedded NUL to a property holding `("x", "y")` raises ValueError (h5py cannot store it in a
-variable-length string) after the dataset was resized to one element — `("x",)` is left.
-`C10_refused_unchanged` is the part that holds: every exception class but ValueError. -/
-theorem C10_any_refusal_unchanged_counterexample : ¬ C10_any_refusal_unchanged := by
-  intro h
-  have hst : Reachable (run State.init [.create ['t'] (.list [.pyStr ['x'], .pyStr ['y']])]) :=
-    ⟨_, by decide, rfl⟩
-  have := h _ hst (.set (.key (.name ['t'])) (.list [.pyStr ['a', Char.ofNat 0, 'b']])) rfl .valueError rfl
-  exact absurd this (by decide)
+/-- The same for every history and every call, stated as one closed proposition: no reachable state
+and no well-formed call whose refusal changes the state exist. -/
+theorem C10_any_refusal_unchanged :
+    ∀ st : State, Reachable st → ∀ op : Op, op.WF = true → ∀ e : Err,
+      (step st op).2 = .error e → (step st op).1 = st :=
+  fun _ hr _ hwf _ herr => C10_refused_unchanged hr hwf herr
 
 /-- **The type check precedes resize and write.**  When `_check_new_value_types` refuses, that very
 error is what `extend_values` and the `values` setter raise and the property is untouched.  (Two
@@ -585,6 +577,38 @@ theorem C10_kept_object_stays_bound {hs : HState} {h pid : Nat} (hl : lookupH hs
   rw [this]
   exact lookupH_prune hl hlive
 
+/-- Refusals through kept objects: a refused call through a kept `Property` object changes nothing
+either (neither the section nor the table of kept objects). -/
+theorem C10_kept_object_refusal_unchanged {hs : HState} (hr : HReachable hs) {op : HOp} (hwf : op.WF = true)
+    {e : Err} (herr : (hstep hs op).2 = .error e) : (hstep hs op).1.st = hs.st := by
+  have hR := hr.reachable
+  have via : ∀ h (mk : PKey → Op), (∀ k, (mk k).WF = true) → (viaHandle hs h mk).2 = .error e →
+      (viaHandle hs h mk).1.st = hs.st := by
+    intro h mk hmk
+    unfold viaHandle
+    cases lookupH hs.handles h with
+    | none => intro _; rfl
+    | some pid => intro h2; exact C10_refused_unchanged hR (hmk _) h2
+  cases op with
+  | plain op => exact C10_refused_unchanged hR (by simpa [HOp.WF] using hwf) herr
+  | hold h k =>
+    simp only [hstep] at herr ⊢
+    cases findProp hs.st k <;> rfl
+  | createHold h name inp =>
+    simp only [hstep] at herr ⊢
+    cases h2 : (step hs.st (.create name inp)).2 with
+    | ok x => simp [h2] at herr
+    | error e' =>
+      simp only [h2] at herr ⊢
+      exact C10_refused_unchanged hR (by simpa [HOp.WF, Op.WF] using hwf) h2
+  | hset h inp => exact via h _ (fun k => by simpa [HOp.WF, Op.WF] using hwf) herr
+  | hextend h inp => exact via h _ (fun k => by simpa [HOp.WF, Op.WF] using hwf) herr
+  | hclear h => exact via h _ (fun k => rfl) herr
+  | hsetAttr h a v => exact via h _ (fun k => rfl) herr
+  | hsetOdml h o => exact via h _ (fun k => rfl) herr
+  | hget h => exact via h _ (fun k => rfl) herr
+  | drop h => rfl
+
 /-! ## non-vacuity -/
 
 /-- a concrete history: create, refuse `True` into the int property, clear, extend, reopen, extend -/
@@ -609,6 +633,14 @@ example : (step State.init (.create ['p'] (.ndarray (.num .int32) [2] [.i 1, .i 
     (State.init, .error .typeError) := by rfl
 example : ((step State.init (.create ['p'] (.ndarray (.num .int64) [2] [.i 1, .i 2]))).1.props.map (·.vals)) =
     [[.i 1, .i 2]] := by rfl
+
+-- text containing NUL (embedded or trailing) and a bare numpy integer beyond int64: refused, nothing changed
+example : (step (run State.init demoOps) (.set (.key (.name ['k'])) (.list [.pyStr ['a', Char.ofNat 0, 'b']]))) =
+    (run State.init demoOps, .error .valueError) := by rfl
+example : (step (run State.init demoOps) (.extend (.key (.name ['k'])) (.scalar (.pyStr ['a', Char.ofNat 0])))) =
+    (run State.init demoOps, .error .valueError) := by rfl
+example : (step (run State.init demoOps) (.extend (.idx 0) (.scalar (.npInt 18446744073709551615)))) =
+    (run State.init demoOps, .error .overflowError) := by rfl
 
 /-- two objects of one property: `0` is what `create_property` returned, `1` a later lookup; the
 property is assigned through the dictionary view, extended through `0`, cleared through `1`, extended
